@@ -12,27 +12,41 @@ RULES = {
     "T-mover": "rules_typestate.rule_t_mover",
     "T-free": "rules_typestate.rule_t_free",
     "M-carry": "rules_typestate.rule_m_carry",
+    "K-new": "rules_colour.rule_k_new",
+    "K-use": "rules_colour.rule_k_use",
+    "K-field": "rules_colour.rule_k_field",
+    "O-wrap": "rules_taint.rule_o_wrap",
+    "W-bound": "rules_cost.rule_w_bound",
+    "W-reentry": "rules_cost.rule_w_reentry",
+    "W-read": "rules_cost.rule_w_read",
+    "B-any": "rules_both.rule_b_any",
+    "B-find": "rules_both.rule_b_find",
+    "B-len": "rules_both.rule_b_len",
+    "B-clear": "rules_both.rule_b_clear",
+    "B-drain": "rules_both.rule_b_drain",
+    "B-into": "rules_both.rule_b_into",
+    "B-comp": "rules_both.rule_b_comp",
 }
 
 # property -> rule ids (quick tier).  Extended as engines land.
 PROPERTY_RULES = {
-    "C01": ["T-grow", "P-zst"],
-    "C02": [],
+    "C01": ["B-any", "B-find", "B-len", "B-clear", "K-new", "K-use", "K-field", "T-grow", "P-zst"],
+    "C02": ["W-bound", "W-reentry", "W-read"],
     "C03": ["M-carry", "T-mover", "T-free", "P-only", "T-grow"],
     "C04": ["T-grow"],
-    "C05": ["P-rem", "P-fill", "P-only", "P-new", "T-grow"],
-    "C06": ["P-rem", "P-fill"],
+    "C05": ["P-rem", "P-fill", "P-only", "P-new", "K-new", "K-use", "K-field", "T-grow"],
+    "C06": ["B-clear", "B-drain", "B-into", "P-rem", "P-fill"],
     "C07": ["P-rem", "P-fill"],
-    "C08": [],
-    "C09": ["P-rem"],
-    "C10": [],
-    "C11": [],
-    "C12": ["P-rem"],
+    "C08": ["B-comp", "B-drain", "B-into", "K-field"],
+    "C09": ["P-rem", "K-use"],
+    "C10": ["O-wrap"],
+    "C11": ["B-clear"],
+    "C12": ["K-new", "K-use", "P-rem"],
     "C13": [],
     "C14": [],
-    "C15": [],
+    "C15": ["K-new", "K-field", "B-comp"],
     "C16": [],
-    "C17": ["P-rem", "P-fill"],
+    "C17": ["O-wrap", "P-rem", "P-fill"],
 }
 
 # extra rules that only run in the thorough tier
